@@ -276,15 +276,22 @@ impl DhtHandler {
 
                 let get_peers_rsp = Response {
                     id: self.this_node_id,
-                    values,
+                    values: vec![],
                     nodes_v4,
                     nodes_v6,
                     token: Some(token.as_ref().to_vec()),
                 };
-                let get_peers_msg = Message {
+                let mut get_peers_msg = Message {
                     transaction_id: message.transaction_id,
                     body: MessageBody::Response(get_peers_rsp),
                 };
+
+                // Give only as many values as fit into a datagram the requester can receive.
+                let max_values = max_values_in_response(&get_peers_msg, addr);
+                if let MessageBody::Response(rsp) = &mut get_peers_msg.body {
+                    rsp.values = values;
+                    rsp.values.truncate(max_values);
+                }
 
                 self.socket.send(&get_peers_msg, addr).await?
             }
@@ -562,6 +569,29 @@ impl DhtHandler {
         tx.send(self.routing_table.lock().unwrap().load_contacts())
             .unwrap_or(());
     }
+}
+
+/// Size of the receive buffer of this (and many another) implementation: the largest datagram
+/// we can expect the other side to receive.
+const MAX_DATAGRAM_LEN: usize = 1500;
+
+/// Number of compact `values` entries (of the requester's address family) that can be added to
+/// the given `values`-less response without exceeding `MAX_DATAGRAM_LEN`.
+fn max_values_in_response(message_without_values: &Message, requester: SocketAddr) -> usize {
+    let base_len = match message_without_values.encode() {
+        Ok(encoded) => encoded.len(),
+        Err(_) => return 0,
+    };
+
+    // "6:valuesl" + "e"
+    let list_len = 9 + 1;
+    // "6:" + 4 bytes ip + 2 bytes port / "18:" + 16 bytes ip + 2 bytes port
+    let value_len = match requester {
+        SocketAddr::V4(_) => 2 + 6,
+        SocketAddr::V6(_) => 3 + 18,
+    };
+
+    MAX_DATAGRAM_LEN.saturating_sub(base_len + list_len) / value_len
 }
 
 // ----------------------------------------------------------------------------//
